@@ -3132,7 +3132,13 @@ class LazyStackedTensorDict(TensorDictBase):
             other = other.unbind(self.stack_dim)
 
             def where(td, cond, other, pad):
-                if cond.numel() > 1:
+                # a whole member can stand for the result only if both sides hold the same keys:
+                # otherwise the missing entries are padded (or rejected) by the member's where
+                if (
+                    cond.numel() > 1
+                    or not _is_tensor_collection(type(other))
+                    or set(td.keys(True, True)) != set(other.keys(True, True))
+                ):
                     return td.where(cond, other, pad=pad)
                 return other if not cond else td
 
